@@ -355,7 +355,7 @@ static void suite_hmacbig(Rng &rng) {
   emitI("hmacbig", "big_regions", "3");
 }
 // one CTR stream object driven through 2^27 + 4 blocks (2 GiB), thorough tier only. Oracle: SP 800-38A CTR is position based —
-// block j of the stream started at IV equals block 0 of a stream started at IV + j (Props/C10 `ctr_counter`): fresh objects give the reference
+// block j of the stream started at IV equals block 0 of a stream started at IV + j (Props/C10 `ctr_position_law`): fresh objects give the reference
 static void suite_ctrlong(Rng &rng) {
   if (!tier_thorough()) { emitI("ctrlong", "skipped", "quick tier"); return; }
   bytes key = rng.buf(16), iv = rng.buf(16); iv[15] = 0xFE; iv[14] = 0xFF; iv[13] = 0xFF;
